@@ -243,9 +243,14 @@ func Main(t *testing.T) {
 	rapid.Check(t, func(rt *rapid.T) {
 		p := prop.Draw(rt, w, mode)
 		p.Prop, p.World, p.Mode = propID, worldName, mode
-		k, v := r.execute(p, false)
+		dumpDir := os.Getenv("VERIF_DUMPLOGS")
+		k, v := r.execute(p, dumpDir != "")
 		if wantHashes {
 			r.res.LogHashes = append(r.res.LogHashes, k.LogHash())
+		}
+		if dumpDir != "" {
+			pb, _ := json.Marshal(p)
+			_ = os.WriteFile(fmt.Sprintf("%s/run%04d.log", dumpDir, r.res.Runs), []byte(string(pb)+"\n"+strings.Join(k.Log, "\n")+"\n"), 0o644)
 		}
 		if len(r.res.Samples) < 3 && r.res.Runs%sampleEvery == 1 {
 			b, _ := json.Marshal(p)
